@@ -25,6 +25,7 @@ Line protocol (one program per line):
   gl <ops> <init id> <sweep outcome ids>                            legacy Gibbs storage
   glf <ops> <init id> <sweep outcome ids>                           legacy Gibbs.sample(Ns, Nb) in full; ops s<Ns>b<Nb>;
       one output per op: C=<returned chain>;W=<samples_warmup> or errI (IndexError) / errV (ValueError; object unchanged)
+  bt <Ns> <Nb> <Nt>                                                 Samples.burnthin(Nb, Nt) on the chain 0..Ns-1: the kept indices, or err
   hgr <blocks> <ops> <stream>                                       HybridGibbs on library block samplers: `replaySpec` blocks whose transition
       outcomes (point id, acceptance) are read off the stream; blocks: <x0 id>|<nuts 0|1>|<num_sampling_steps>; ops as hgt;
       snapshot C=<current ids>;S=<rows>;T=<tune calls>;B=<per block: number of acceptance records/point id>
@@ -369,6 +370,13 @@ def step : List String → String
     match init.toInt?, parseInts "," stream with
     | some i, some ds => (gibbsLegacyFullOps (ops.splitOn ";") i ds).getD "bad-op"
     | _, _ => "bad-op"
+  | ["bt", n, nb, nt] =>
+    match n.toNat?, nb.toNat?, nt.toNat? with
+    | some n, some nb, some nt =>
+      match burnthin nb nt (List.range n) with
+      | none => "err"
+      | some l => fmtNatList l
+    | _, _, _ => "bad-op"
   | ["hgr", blocks, ops, stream] =>
     match (blocks.splitOn ";").mapM parseReplayBlock, parseInts "," stream with
     | some cfgs, some ds => if cfgs.isEmpty then "bad-op" else (hgReplayOps cfgs (ops.splitOn ";") ds).getD "bad-op"
